@@ -187,6 +187,21 @@ class Tap:
         self.w = S.new_world(confs)
         self.w.sent_log = []
         self.keys = {}
+        self.conf0 = self.conf_picture()
+
+    def conf_picture(self):
+        """the policies the daemons work with, as they stand now"""
+        out = {}
+        for name, ep in sorted(self.w.endpoints.items()):
+            for key, c in sorted(ep.conf.ike_configurations.items(), key=repr):
+                out[(name, c.name)] = ([tt(t) for t in c.proposal.transforms],
+                                       [(e.index, int(e.proposal.protocol_id), [tt(t) for t in e.proposal.transforms]) for e in c.protect])
+        return out
+
+    def conf_changed(self):
+        now = self.conf_picture()
+        return [('configuration-changed', 'the policy of %s / connection %s is no longer what was loaded: %r, was %r' % (
+            k[0], k[1], now[k], self.conf0[k])) for k in sorted(self.conf0) if now.get(k) != self.conf0[k]]
 
     def harvest(self):
         for ep in self.w.endpoints.values():
@@ -948,6 +963,7 @@ def tamper_case(target, label):
                             'group %r; the policy (and the first request) say %s with KE group %r' % (
                                 [show(p[3]) for p in v['sa']], v['ke'], [show(p[3]) for p in req['sa']], req['ke'])))
             break
+    bad += tap.conf_changed()
     outcome = (target, must_refuse, accepted, tuple(after['states']), len(after['kids']), len(later))
     return dict(outcome=outcome, must_refuse=must_refuse,
                 found=[('tamper:%s:%s:%s' % (target, label, e), text) for e, text in bad])
@@ -970,6 +986,11 @@ def foreign_variants(real):
     yield 'foreign-suite-last', [(1, proto, spi, ts), (2, proto, DECOY_SPI, foreign)]
     yield 'two-decoys-first', [(1, other, DECOY_SPI, other_suite), (2, proto, b'\xde\xc0\xde\x02', foreign), (3, proto, spi, ts)]
     yield 'acceptable-twice', [(1, proto, DECOY_SPI, ts[:1] + ts[2:] if len(ts) > 3 else ts), (2, proto, spi, ts)]
+    no_esn = tuple(t for t in ts if t[0] != 5)
+    if no_esn != tuple(ts):
+        # RFC 7296 3.3.3 makes the ESN transform mandatory for ESP / AH; implementations that leave it out exist
+        yield 'without-esn-transform', [(1, proto, spi, no_esn)]
+        yield 'without-esn-transform-then-complete', [(1, proto, DECOY_SPI, no_esn), (2, proto, spi, ts)]
 
 
 def foreign_case(target, label):
@@ -1040,6 +1061,7 @@ def foreign_case(target, label):
         if ka != kb:
             bad.append(('kernels-differ', 'SAs (daddr, proto, SPI) only at A %s, only at B %s' % (
                 sorted((x[0], x[2].hex()) for x in ka - kb), sorted((x[0], x[2].hex()) for x in kb - ka))))
+    bad += tap.conf_changed()
     return dict(outcome=(target, label, exp and exp['number'], len(bad)),
                 found=[('foreign-initiator:%s:%s:%s' % (target, label, e), text) for e, text in bad])
 
